@@ -335,10 +335,29 @@ func nonNegReturns(c *core.Ctx, r *core.Report, fn *ssa.Function, nonneg func(v 
 }
 
 func returnNonNeg(ret *ssa.Return, v ssa.Value, nonneg func(v ssa.Value) (bool, string)) (bool, string) {
+	return returnNonNegAt(ret.Block(), ret, v, nonneg)
+}
+
+// returnNonNegAt judges v as it is known at the end of block at (the returning block, or — for results merged before a
+// single exit — the predecessor a phi edge comes from).
+func returnNonNegAt(at *ssa.BasicBlock, ret *ssa.Return, v ssa.Value, nonneg func(v ssa.Value) (bool, string)) (bool, string) {
 	v = noConv(v)
 	if nonneg != nil {
 		if ok, why := nonneg(v); ok {
 			return true, why
+		}
+	}
+	if phi, isPhi := v.(*ssa.Phi); isPhi && len(phi.Edges) == len(phi.Block().Preds) {
+		// named results merged before one return: every incoming value is judged under the guards of its own edge
+		all := true
+		for i, e := range phi.Edges {
+			if ok, _ := returnNonNegAt(phi.Block().Preds[i], ret, e, nonneg); !ok {
+				all = false
+				break
+			}
+		}
+		if all {
+			return true, "every value merged into the result is non-negative on its own path"
 		}
 	}
 	// a result of a same-module helper: every return of the helper must be non-negative at that position
@@ -367,7 +386,7 @@ func returnNonNeg(ret *ssa.Return, v ssa.Value, nonneg func(v ssa.Value) (bool, 
 		return false, "negative constant"
 	}
 	// guarded by !(v < k) / (v >= k) with k >= 0
-	for _, g := range an.GuardsOf(ret.Block()) {
+	for _, g := range an.GuardsOf(at) {
 		bo, ok := g.Cond.(*ssa.BinOp)
 		if !ok {
 			continue
@@ -404,7 +423,7 @@ func returnNonNeg(ret *ssa.Return, v ssa.Value, nonneg func(v ssa.Value) (bool, 
 			}
 		}
 		// int(x) where x is guarded
-		for _, g := range an.GuardsOf(ret.Block()) {
+		for _, g := range an.GuardsOf(at) {
 			bo, ok := g.Cond.(*ssa.BinOp)
 			if !ok {
 				continue
@@ -413,7 +432,8 @@ func returnNonNeg(ret *ssa.Return, v ssa.Value, nonneg func(v ssa.Value) (bool, 
 			if !isK || k.Value == nil {
 				continue
 			}
-			if sameCellLoad(bo.X, inner) && bo.Op == token.LSS && !g.Polarity && k.Float64() >= 0 {
+			lower := (bo.Op == token.LSS && !g.Polarity) || (bo.Op == token.GEQ && g.Polarity) || (bo.Op == token.GTR && g.Polarity) || (bo.Op == token.LEQ && !g.Polarity)
+			if sameCellLoad(bo.X, inner) && lower && k.Float64() >= 0 {
 				return true, "int(x) with x ≥ " + k.Value.String() + " on this path"
 			}
 		}
